@@ -274,16 +274,6 @@ dexpr_copy(const_dexpr_t src)
 	return res;
 }
 
-static dexpr_t
-dexpr_copy_j(dexpr_t src)
-{
-/* copy SRC, but only if it's a junction (disjunction or conjunction) */
-	if (src->type == DEX_VAL) {
-		return (dexpr_t)src;
-	}
-	return dexpr_copy(src);
-}
-
 static void
 __dnf(dexpr_t root)
 {
@@ -319,17 +309,17 @@ __dnf(dexpr_t root)
 
 			root->right->type = DEX_DISJ;
 			root->right->left = make_dexpr(DEX_CONJ);
-			root->right->left->left = dexpr_copy_j(a);
+			root->right->left->left = dexpr_copy(a);
 			root->right->left->right = d;
 
 			root->right->right = make_dexpr(DEX_DISJ);
 			root->right->right->left = make_dexpr(DEX_CONJ);
 			root->right->right->left->left = b;
-			root->right->right->left->right = dexpr_copy_j(c);
+			root->right->right->left->right = dexpr_copy(c);
 			/* right side, finalise the right branches with CONJ */
 			root->right->right->right = make_dexpr(DEX_CONJ);
-			root->right->right->right->left = dexpr_copy_j(b);
-			root->right->right->right->right = dexpr_copy_j(d);
+			root->right->right->right->left = dexpr_copy(b);
+			root->right->right->right->right = dexpr_copy(d);
 
 		} else if (rlt == DEX_DISJ || rrt == DEX_DISJ) {
 			/* ok'ish case
@@ -358,7 +348,7 @@ __dnf(dexpr_t root)
 
 			/* rearrange this node now, reuse the right disjoint */
 			root->right->type = DEX_CONJ;
-			root->right->left = a;
+			root->right->left = dexpr_copy(a);
 			root->right->right = c;
 		}
 		/* fallthrough! */
@@ -610,7 +600,8 @@ __conj_matches_p(const_dexpr_t dex, struct dt_dt_s d)
 	const_dexpr_t a;
 
 	for (a = dex; a->type == DEX_CONJ; a = a->right) {
-		if (!dexkv_matches_p(a->left->kv, d)) {
+		/* the left branch may well be a conjunction itself */
+		if (!__conj_matches_p(a->left, d)) {
 			return false;
 		}
 	}
